@@ -219,4 +219,73 @@ theorem flushAllLoop_noWtf (A : SeqArith) (hA : ∀ x, A.diff x x ≤ 0) (fuel :
     · exact skipFlush_noWtf A hA c used h
     · exact ih _ _ _ (skipFlush_noWtf A hA c used h)
 
+/-! ### the stream id of a connection never changes -/
+
+theorem send_sid' (A : SeqArith) (c : Conn) (used : Int) (r0 : Reasm) (rs : List Reasm) :
+    (send A c used r0 rs).conn.sid = c.sid := by
+  unfold send; dsimp only; split <;> rfl
+
+theorem skipFlush_sid (A : SeqArith) (c : Conn) (used : Int) : (skipFlush A c used).conn.sid = c.sid := by
+  unfold skipFlush
+  split
+  · rfl
+  · rw [send_sid']
+
+theorem insertIntoConn_sid (A : SeqArith) (L : Lim) (c : Conn) (used seq : Int) (b : Bytes) (fin : Bool)
+    (ts : Int) (st : Step) (h : insertIntoConn A L c used seq b fin ts = .ok st) : st.conn.sid = c.sid := by
+  unfold insertIntoConn at h
+  split at h
+  · cases h
+  · dsimp only at h
+    split at h
+    · cases h; rfl
+    · cases h; rw [send_sid']
+
+theorem assembleConn_sid (A : SeqArith) (L : Lim) (c : Conn) (used : Int) (s : Seg) (st : Step)
+    (h : assembleConn A L c used s = .ok st) : st.conn.sid = c.sid := by
+  unfold assembleConn at h
+  dsimp only at h
+  generalize hcc : (if c.lastSeen < s.ts then { c with lastSeen := s.ts } else c) = c1 at h
+  have h1 : c1.sid = c.sid := by rw [← hcc]; split <;> rfl
+  split at h
+  · split at h
+    · cases h; rw [send_sid']; exact h1
+    · rw [insertIntoConn_sid A L c1 _ _ _ _ _ st h]; exact h1
+  · split at h
+    · rw [insertIntoConn_sid A L c1 _ _ _ _ _ st h]; exact h1
+    · cases h; rw [send_sid']; exact h1
+
+theorem flushLoop_sid (A : SeqArith) (T : Int) (fuel : Nat) (c : Conn) (used : Int)
+    (calls : List (List Reasm)) (fl : Bool) : (flushLoop A T fuel c used calls fl).1.conn.sid = c.sid := by
+  induction fuel generalizing c used calls fl with
+  | zero => rfl
+  | succ f ih =>
+    simp only [flushLoop]
+    split
+    · rfl
+    · split
+      · split
+        · exact skipFlush_sid A c used
+        · rw [ih]; exact skipFlush_sid A c used
+      · rfl
+
+theorem flushConn_sid (A : SeqArith) (T : Int) (ca : Bool) (c : Conn) (used : Int) :
+    (flushConn A T ca c used).1.conn.sid = c.sid := by
+  unfold flushConn
+  dsimp only
+  split <;> exact flushLoop_sid A T _ c used _ _
+
+theorem flushAllLoop_sid (A : SeqArith) (fuel : Nat) (c : Conn) (used : Int) (calls : List (List Reasm)) :
+    (flushAllLoop A fuel c used calls).conn.sid = c.sid := by
+  induction fuel generalizing c used calls with
+  | zero => rfl
+  | succ f ih =>
+    simp only [flushAllLoop]
+    split
+    · exact skipFlush_sid A c used
+    · rw [ih]; exact skipFlush_sid A c used
+
+theorem flushAllConn_sid (A : SeqArith) (c : Conn) (used : Int) : (flushAllConn A c used).conn.sid = c.sid :=
+  flushAllLoop_sid A _ c used _
+
 end Gp.Asm
